@@ -92,7 +92,7 @@ def main(ck):
         tasks.append(('exh%d' % i, spec))
     nr = ck.pick(16, 64)
     for i in range(nr):
-        tasks.append(('rnd%d' % i, {'mode': 'random', 'seed': '%d:%d' % (ck.seed, i), 'maxlen': 400, 'b_every': 4,
+        tasks.append(('rnd%d' % i, {'mode': 'random', 'seed': '%d:%d' % (ck.seed, i), 'maxlen': 400, 'b_every': 4, 'ccw_count': ck.pick(2000, 40000) // nr,
                                     'count': n_random // nr + (1 if i < n_random % nr else 0)}))
 
     def insitu():
@@ -113,7 +113,8 @@ def main(ck):
     ck.cov['wall_direct_workers_s'] = {'exhaustive_sum': round(sum(o.get('wall', 0) for t, o in outs if t.startswith('exh')), 1),
                                        'random_sum': round(sum(o.get('wall', 0) for t, o in outs if t.startswith('rnd')), 1),
                                        'all_done_at': round(ck.elapsed(), 1)}
-    tot = {'evaluations': 0, 'histories': 0, 'nontrivial': 0, 'observations': 0, 'every_step_runs': 0}
+    tot = {'evaluations': 0, 'histories': 0, 'nontrivial': 0, 'observations': 0, 'every_step_runs': 0, 'ccw_histories': 0,
+           'ccw_nontrivial': 0}
     opcount, by_len = {}, {}
     maxdepth = maxhandles = 0
     samples = []
@@ -151,6 +152,7 @@ def main(ck):
     for k in ('W', 'w', 'ip', 'ins', 'c', 'r', 'M', 'n', 'e', 'o', 'new'):
         ck.inconclusive_if(opcount.get(k, 0) == 0, 'operation kind %r never executed' % k)
     ck.inconclusive_if(maxdepth < 4, 'hole nesting depth reached only %d' % maxdepth)
+    ck.inconclusive_if(tot['ccw_histories'] == 0, 'no CCodeWriter-level history was run')
 
     # ---------------------------------------------------------------- in-situ part
     ins = {'compilations': len(jobs), 'translated_ok': 0, 'trees': 0, 'roots_compared': 0, 'fragments_checked': 0,
@@ -198,7 +200,8 @@ def main(ck):
     extra = {
         'exhaustive_histories': exh_hist, 'exhaustive_max_length': maxlen, 'histories_by_length': by_len,
         'random_histories': rnd_hist, 'random_max_length': 400, 'observations_compared': tot['observations'],
-        'runs_observing_after_every_step': tot['every_step_runs'],
+        'runs_observing_after_every_step': tot['every_step_runs'], 'ccodewriter_histories': tot['ccw_histories'],
+        'ccodewriter_histories_with_holes': tot['ccw_nontrivial'],
         'operations_by_kind': opcount, 'max_hole_depth': maxdepth, 'max_handles': maxhandles, 'in_situ': ins,
         'evaluations_direct': tot['evaluations'], 'evaluations_in_situ_roots': ins['roots_compared'],
     }
@@ -239,7 +242,7 @@ def replay(ck, data):
             return 1
         print('replay: buffers of %s agree with the model' % w['source_file'])
         return 0
-    o = run_worker(tree, {'mode': 'replay', 'history': w['history']}, 'replay', 120)
+    o = run_worker(tree, {'mode': 'replay', 'history': w['history'], 'witness_mode': w.get('mode')}, 'replay', 120)
     if 'failed' in o:
         print('replay worker failed', o['failed'])
         return 2
